@@ -214,6 +214,10 @@ def run(ctx: Ctx) -> None:
     t1_grid.run_grid_tables(ctx, for_c02=True)
     header_eval(ctx)
     t1_grid.run_singleton(ctx)
+    from ..tables import t9_derived
+    with ctx.only("T9.crop-family"):  # "origin is the position of sample 0" also for grids derived by crop / pad / ROI / pooling (shared with C03)
+        t9_derived.run_derived(ctx)
+    ctx.floor("T9.crop-family", 100)
     ctx.floor("T1.itk-singleton", 5)
     ctx.floor("T1.itk", 16)
     ctx.floor("T1.itk-header", 4)
